@@ -84,6 +84,7 @@ class Recorder:
         self.sim = None
         self.controllers = {}
         self.identities = []         # (node id, id(protocol), id(provider)) at initialize
+        self.own_pos = []
 
     # -- protocol side ---------------------------------------------------------------------
     def on_callback(self, proto, kind, key, pos=None):
@@ -93,6 +94,12 @@ class Recorder:
         if pos is not None:
             entry.append(v3bits(pos))
         self.trace.append(entry)
+        if pos is not None and self.sim is not None:
+            # the node's own position at the moment its telemetry is handled (C12)
+            try:
+                self.own_pos.append([n, t, v3bits(pos), v3bits(self.sim.get_node(n).position)])
+            except Exception:
+                pass
         k = trig_key(n, kind, key, t)
         row = self.table.get(k)
         if row is None:
@@ -283,7 +290,7 @@ def run_impl(scn, behaviour=None, sim_options=None, draw_seed=0, keep_logging=Fa
         "trace": rec.trace, "rets": rets, "positions": rec.positions, "finalPositions": final_pos,
         "drawsUsed": used, "draws": [fbits(v) for v in source.values + extra],
         "table": list(rec.table.values()), "crash": crash, "excTypes": rec.exc_types,
-        "identities": rec.identities, "addedIds": getattr(rec, "added_ids", None),
+        "identities": rec.identities, "ownPos": rec.own_pos, "addedIds": getattr(rec, "added_ids", None),
     }
 
 
